@@ -355,6 +355,18 @@ fn scenario(p: Params) -> ExecResult {
 }
 
 pub fn main(args: &Args) -> i32 {
+    if let Some(p) = &args.replay {
+        return crate::sched::replay(p, |_, j| {
+            let p = Params {
+                callers: j["callers"].as_u64().unwrap_or(2) as usize,
+                noreply: j["noreply"].as_bool().unwrap_or(false),
+                timeout: j["timeout"].as_bool().unwrap_or(false),
+                eof: j["eof"].as_bool().unwrap_or(false),
+                strays: j["strays"].as_u64().unwrap_or(0) as usize,
+            };
+            Some(Box::new(move || scenario(p)))
+        });
+    }
     let report = Report::new("C19", args.tier, args.seed, "model_checking");
     let totals = Mutex::new(Totals::default());
     let quick = args.tier == vcommon::Tier::Quick;
